@@ -512,6 +512,7 @@ impl<'a> Printer<'a> {
             Item::Blob(b) => self.blob_decl(*b),
             Item::Enum(e) => self.enum_decl(*e),
             Item::Global { b, init } => self.def_line(*b, init, 0),
+            Item::Raw(t) => t.clone(),
         }
     }
 
